@@ -170,7 +170,11 @@ volatile sig_atomic_t SubprocessSet::s_sigchld_received;
 
 Subprocess::Subprocess(bool use_console) : fd_(-1), pid_(-1), use_console_(use_console) {}
 Subprocess::~Subprocess() {}
-ExitStatus Subprocess::Finish() { return exit_status_; }
+ExitStatus Subprocess::Finish() {
+  // the real Finish() is a blocking waitpid(): only now is the process known to be gone
+  if (g_cur.res && pid_ >= 0 && pid_ < (int)g_cur.res->cmds.size()) Record(Event::kReap, pid_);
+  return exit_status_;
+}
 bool Subprocess::Done() const { return fd_ == -2; }
 const string& Subprocess::GetOutput() const { return buf_; }
 
